@@ -580,6 +580,28 @@ def run(ctx):
             run_recipe(ctx, rng, ["Struct", [["h", B], ["f", ["FlagsEnum", sub, [["a", 1], ["b", 2], ["c", 0x40], ["d", 0x80], ["e", 0x100], ["z", 0x8000]] if sub != B else [["a", 1], ["b", 2], ["d", 0x80]]]], ["t", B]]])
             run_recipe(ctx, rng, ["Struct", [["e", ["Enum", sub, [["one", 1], ["two", 2]]]], ["arr", ["Array", 2, ["Enum", sub, [["one", 1]]]]]]])
             run_recipe(ctx, rng, ["Struct", [["c", ["EnumClass", sub, [["red", 1], ["green", 2]]]], ["m", ["EnumMixed", sub, [["red", 1], ["green", 2]], [["blue", 3]]]], ["arr", ["Array", 3, ["EnumMixed", sub, [["x", 0]], [["y", 1]]]]]]])
+    if ctx.index == 1 % ctx.nworkers:
+        # constants whose encoding is not the bare value (a wrapping sub-construct), followed by a member that shows the shift
+        GB = ["name", "GreedyBytes"]
+        for sub in (["NullTerminated", GB, tag(b"\x00"), False, True, True], ["Prefixed", B, GB, False], ["Prefixed", ["name", "Int16ul"], GB, True], ["Padded", 5, GB], ["FixedSized", 4, GB],
+                    ["Aligned", 4, GB], None):
+            for val in (b"abc", b"M", b"\x01\x02"):
+                run_recipe(ctx, rng, ["Struct", [["h", B], ["sig", ["Const", tag(val), sub]], ["t", ["name", "Int16ub"]]]])
+        for ival, sub in ((7, B), (300, ["name", "Int16ul"]), (5, ["name", "VarInt"]), (1, ["Padded", 3, B])):
+            run_recipe(ctx, rng, ["Struct", [["h", B], ["sig", ["Const", ival, sub]], ["t", B]]])
+        # conditions built from flags with negations inside binary operators (how an expression prints decides what the schema says)
+        F = ["name", "Flag"]
+        fa, fb, na = ["this", "fa"], ["this", "fb"], ["this", "n"]
+        for cond in (["bin", "&", ["un", "~", fa], fb], ["bin", "|", ["un", "~", fa], fb], ["bin", "&", fa, ["un", "~", fb]], ["un", "~", ["bin", "&", fa, fb]], ["un", "~", ["bin", "|", fa, fb]],
+                     ["bin", "&", ["un", "~", ["bin", ">", na, 1]], fb], ["bin", "==", ["un", "-", na], -1], ["bin", "|", ["bin", "==", na, 0], ["un", "~", fa]], ["bin", ">", ["bin", "-", 3, na], 1],
+                     ["bin", "==", ["bin", "-", ["bin", "-", na, 1], 1], 0], ["bin", "==", ["bin", "-", na, ["bin", "-", 1, 1]], 1], ["bin", "==", ["bin", "%", ["bin", "*", na, 3], 2], 1]):
+            for _ in range(ctx.pick(3, 10)):
+                run_recipe(ctx, rng, ["Struct", [["fa", F], ["fb", F], ["n", B], ["x", ["If", cond, ["name", "Int16ub"]]], ["t", B]]])
+                run_recipe(ctx, rng, ["Struct", [["fa", F], ["fb", F], ["n", B], ["x", ["IfThenElse", cond, ["name", "Int16ub"], ["Bytes", 3]]], ["t", B]]])
+        # fixed-size strings under every spelling of the encoding name
+        for enc in ("utf8", "utf-8", "UTF8", "Utf_8", "ascii", "ASCII", "us-ascii" if False else "Ascii", "latin1" if False else "utf_8"):
+            for n in (3, 5):
+                run_recipe(ctx, rng, ["Struct", [["h", B], ["s", ["PaddedString", n, enc]], ["t", B]]])
     # single-member structs for every leaf kind (so that one defect does not mask the others)
     g = G(rng)
     for i in range(ctx.pick(2000, 20000) // ctx.nworkers):
